@@ -69,7 +69,7 @@ pub fn reset(exec: u32, slow_clone: u8, slow_view: u8, slow_drop: u8) {
     })
 }
 
-fn violation(class: &'static str, serial: u32, msg: String) {
+pub fn violation(class: &'static str, serial: u32, msg: String) {
     let (task, step) = rt::with(|r| (r.cur.get(), r.steps.get()));
     if rt::with(|r| r.trace.get()) {
         eprintln!("  !! ledger violation {} serial {} : {}", class, serial, msg);
@@ -127,7 +127,11 @@ impl P {
     pub fn observe(&self, when: &'static str) -> bool {
         let _g = rt::galloc::NoAttr::new();
         // read the fields once (a torn slot may disagree with itself)
-        let (id, inv, serial, exec) = (self.id, self.inv, self.serial, self.exec);
+        // volatile: a shared reference promises the compiler an unchanging value; whether the
+        // queue keeps that promise is what is being checked, so no load may be reused
+        let (id, inv, serial, exec) = unsafe {
+            (std::ptr::read_volatile(&self.id), std::ptr::read_volatile(&self.inv), std::ptr::read_volatile(&self.serial), std::ptr::read_volatile(&self.exec))
+        };
         LEDGER.with(|l| {
             let cur_exec = l.borrow().exec;
             if exec != cur_exec || inv != !id {
@@ -187,7 +191,8 @@ impl Clone for P {
             rt::shim::user_point();
         }
         if ok {
-            if self.id != id0 || self.serial != serial0 {
+            let (id1, serial1) = unsafe { (std::ptr::read_volatile(&self.id), std::ptr::read_volatile(&self.serial)) };
+            if id1 != id0 || serial1 != serial0 {
                 violation(
                     "changed_during_observation",
                     serial0,
@@ -195,8 +200,8 @@ impl Clone for P {
                         "clone: source changed from {} (serial {}) to id={:#x} serial={} while being cloned",
                         fmt_id(id0),
                         serial0,
-                        self.id,
-                        self.serial
+                        id1,
+                        serial1
                     ),
                 );
             } else {
@@ -290,11 +295,12 @@ pub fn view(p: &P) -> u64 {
         rt::shim::user_point();
     }
     if ok {
-        if p.id != id0 || p.serial != serial0 {
+        let (id1, serial1) = unsafe { (std::ptr::read_volatile(&p.id), std::ptr::read_volatile(&p.serial)) };
+        if id1 != id0 || serial1 != serial0 {
             violation(
                 "changed_during_observation",
                 serial0,
-                format!("view: value changed from {} (serial {}) to id={:#x} serial={} during the closure", fmt_id(id0), serial0, p.id, p.serial),
+                format!("view: value changed from {} (serial {}) to id={:#x} serial={} during the closure", fmt_id(id0), serial0, id1, serial1),
             );
         } else {
             p.observe("view end");
